@@ -8,7 +8,7 @@ from typing import Optional
 from ..astutil import u
 from ..identity import identities
 from ..model import AnalysisError, Cls, Fn, Prog, loc
-from ..normform import N1, N2, NormForm
+from ..normform import N1, N2, RAW, NormForm
 from ..report import Ctx
 from . import scope
 
@@ -54,6 +54,7 @@ def rules(ctx: Ctx) -> None:
     if nf.norm is None:
         raise AnalysisError("normaliser escape_identifier_name not found")
     n_sites = 0
+    _dups: dict[str, list] = {}
     for f in prog.funcs.values():
         owner = f.owner
         for n in prog.walk_fn(f):
@@ -90,6 +91,8 @@ def rules(ctx: Ctx) -> None:
                         if bad and akey in ALLOW and isinstance(a, ast.Call) and nf.is_norm_call(a, f):
                             ctx.allow("R16.2", akey, loc(f.mod, n), f"`{u(n)[:70]}`", ALLOW[akey])
                             continue
+                        if bad:
+                            _dups.setdefault((akey), []).append((len(ctx.obligations), f, a))
                         ctx.ob("R16.2", f"{base}({pn})<-{'+'.join(bad) if bad else 'ok'}@{owner}" if bad else f"{base}({pn})@{owner}", not bad, loc(f.mod, n),
                                f"`{u(n)[:70]}`: the constructor normalises `{pn}` itself; the argument `{u(a)[:40]}` is already normalised ({sorted(st)}), so a quoted mixed-case "
                                f"name is lower-cased on the second pass" if bad else f"`{u(n)[:60]}`: `{pn}` arrives un-normalised ({sorted(st)})", trivial=not bad and st <= {"CONST", "?"})
@@ -112,6 +115,19 @@ def rules(ctx: Ctx) -> None:
                 what = f"->{fld}" if fld else ""
                 ctx.ob("R16.2", f"normalise{what}<-{'+'.join(bad)}@{owner}" if bad else f"normalise{what}@{owner}:{n.lineno - f.lineno}", not bad, loc(f.mod, n),
                        f"`{u(n)[:70]}` normalises a value that is already normalised ({sorted(st)})" if bad else f"`{u(n)[:60]}` normalises {sorted(st)}", trivial=not bad)
+    # several failing sites of one function with one key are told apart by where the argument comes from (a known finding names one site, not the function)
+    from dataclasses import replace as _replace
+    from ..canon import canon as _canon
+    for akey, sites in _dups.items():
+        srcs = []
+        for i_ob, f_, a_ in sites:
+            try:
+                srcs.append(_canon(prog, f_, a_)[:60])
+            except Exception:  # noqa
+                srcs.append(u(a_)[:60])
+        if len(set(srcs)) > 1:
+            for (i_ob, f_, a_), src in zip(sites, srcs):
+                ctx.obligations[i_ob] = _replace(ctx.obligations[i_ob], key=f"{akey}:{src}")
     ctx.floor("constructor name-arguments and normaliser applications judged", n_sites, 41)
 
     # every name field of a model object is written through the normaliser (a position that skips it denotes another entity
@@ -220,6 +236,59 @@ def rules(ctx: Ctx) -> None:
 
     # ---- R16.9 (= R02.11): the qualifier of a dotted column reference is the part next to the column
     _imp16(ctx, "C02", {"R02.11": "R16.9"})
+
+    # ---- R16.10 a name is looked up among names of its own kind: a local set / dictionary of names that is searched (`k in C`, `C.get(k)`, `C[k]`)
+    # holds names in ONE spelling state, and the key searched for is in that state too.  A qualifier as written (`T`, `"t"`) is not found among
+    # normalised names (`t`), and a container filled with both raw and normalised spellings answers differently for `t` and `T`.
+    n_lookups = 0
+    for f in prog.funcs.values():
+        if not (f.mod.name.startswith("sqllineage.core.parser") or f.mod.name == "sqllineage.core.holders"):
+            continue
+        conts: dict[str, list[ast.AST]] = {}
+        for k in prog.walk_fn(f):
+            if isinstance(k, (ast.Assign, ast.AnnAssign)) and getattr(k, "value", None) is not None:
+                tg = k.targets if isinstance(k, ast.Assign) else [k.target]
+                for t in tg:
+                    if isinstance(t, ast.Name):
+                        v = k.value
+                        keys = list(v.keys) if isinstance(v, ast.Dict) else list(v.elts) if isinstance(v, (ast.Set, ast.List, ast.Tuple)) else [v.key] if isinstance(v, ast.DictComp) else [v.elt] if isinstance(v, (ast.SetComp, ast.ListComp)) else None
+                        if keys is None and isinstance(v, ast.Call) and isinstance(v.func, ast.Name) and v.func.id in ("set", "dict", "list") and not v.args:
+                            keys = []
+                        if keys is not None:
+                            conts.setdefault(t.id, []).extend(x for x in keys if x is not None)
+                    elif isinstance(t, ast.Subscript) and isinstance(t.value, ast.Name):
+                        conts.setdefault(t.value.id, []).append(t.slice)
+            elif isinstance(k, ast.Call) and isinstance(k.func, ast.Attribute) and isinstance(k.func.value, ast.Name) and k.func.attr in ("add", "append", "setdefault") and k.args:
+                conts.setdefault(k.func.value.id, []).append(k.args[0])
+            elif isinstance(k, ast.Call) and isinstance(k.func, ast.Attribute) and isinstance(k.func.value, ast.Name) and k.func.attr == "update" and k.args and isinstance(k.args[0], (ast.Set, ast.Dict, ast.List)):
+                conts.setdefault(k.func.value.id, []).extend(x for x in (k.args[0].keys if isinstance(k.args[0], ast.Dict) else k.args[0].elts) if x is not None)
+        conts = {c_: ks for c_, ks in conts.items() if ks and prog.local_defs(f, c_)}
+        if not conts:
+            continue
+        cstate = {c_: set().union(*[nf.query(x, f) for x in ks]) for c_, ks in conts.items()}
+        for k in prog.walk_fn(f):
+            key = cname = None
+            if isinstance(k, ast.Compare) and len(k.ops) == 1 and isinstance(k.ops[0], (ast.In, ast.NotIn)) and isinstance(k.comparators[0], ast.Name) and k.comparators[0].id in conts:
+                key, cname = k.left, k.comparators[0].id
+            elif isinstance(k, ast.Call) and isinstance(k.func, ast.Attribute) and k.func.attr in ("get", "pop") and isinstance(k.func.value, ast.Name) and k.func.value.id in conts and k.args:
+                key, cname = k.args[0], k.func.value.id
+            elif isinstance(k, ast.Subscript) and isinstance(k.ctx, ast.Load) and isinstance(k.value, ast.Name) and k.value.id in conts:
+                key, cname = k.slice, k.value.id
+            if key is None:
+                continue
+            ks, cs = nf.query(key, f), cstate[cname]
+            named = (ks | cs) & {RAW, N1, N2}
+            if not named:
+                continue
+            n_lookups += 1
+            ctx.touched(f)
+            mixed = RAW in cs and cs & {N1, N2}
+            mismatch = (RAW in ks and not ks & {N1, N2} and cs & {N1, N2} and RAW not in cs) or (ks & {N1, N2} and RAW not in ks and RAW in cs and not cs & {N1, N2})
+            ctx.ob("R16.10", f"looked-up-among-names-of-its-own-kind:{f.owner}:{cname}", not mixed and not mismatch, loc(f.mod, k),
+                   f"`{u(k)[:60]}`: key is {sorted(ks)}, the names in `{cname}` are {sorted(cs)}" + (
+                       " - raw and normalised spellings in one container" if mixed else " - a name as written is searched among normalised names (or the reverse): "
+                       "an upper-case or quoted spelling of the same identifier is not found" if mismatch else ""))
+    ctx.extra["name_lookups_in_local_containers"] = n_lookups
 
 
 def reference_parts_rule(ctx: Ctx, rule: str) -> None:
